@@ -2,20 +2,22 @@
 # usage: validate_seed.sh <Cxx> <variant> : confirm an agent-produced seeded change in a scratch worktree and,
 # if it holds up, keep it as /verif/seeded/<Cxx><variant>/
 ID=$1; V=$2
-SRC=/tmp/wt/out/$ID/$V
-WT=/tmp/wt/val/$ID$V
-DST=/verif/seeded/$ID$V
+# optional: SEED_SRC=<dir with patch.diff demo.py meta.json>  SEED_NAME=<name under /verif/seeded>
+SRC=${SEED_SRC:-/tmp/wt/out/$ID/$V}
+NAME=${SEED_NAME:-$ID$V}
+WT=/tmp/wt/val/$NAME
+DST=/verif/seeded/$NAME
 [ -f "$SRC/patch.diff" ] || { echo "no patch for $ID $V"; exit 2; }
 rm -rf "$WT"; mkdir -p /tmp/wt/val
 git -C /repo worktree add --detach "$WT" HEAD >/dev/null 2>&1 || exit 2
 cp "$SRC/demo.py" "$WT/demo.py"
 cd "$WT" || exit 2
-timeout 300 /venv/bin/python demo.py >/tmp/wt/val/$ID$V.clean.log 2>&1; CLEAN=$?
+timeout 300 /venv/bin/python demo.py >/tmp/wt/val/$NAME.clean.log 2>&1; CLEAN=$?
 git apply "$SRC/patch.diff" || { echo "patch does not apply"; git -C /repo worktree remove --force "$WT"; exit 2; }
-timeout 300 /venv/bin/python demo.py >/tmp/wt/val/$ID$V.patched.log 2>&1; PATCHED=$?
+timeout 300 /venv/bin/python demo.py >/tmp/wt/val/$NAME.patched.log 2>&1; PATCHED=$?
 BASE=$(unshare -n sh -c "ip link set lo up; /verif/tools/baseline_check.py $WT" 2>&1 | head -3)
 cd /; git -C /repo worktree remove --force "$WT"
-echo "$ID$V demo_clean_exit=$CLEAN demo_patched_exit=$PATCHED baseline: $BASE"
+echo "$NAME demo_clean_exit=$CLEAN demo_patched_exit=$PATCHED baseline: $BASE"
 if [ "$CLEAN" = 0 ] && [ "$PATCHED" != 0 ] && echo "$BASE" | grep -q "missing=0"; then
   mkdir -p "$DST"; cp "$SRC/patch.diff" "$SRC/demo.py" "$DST/"
   /venv/bin/python - "$SRC/meta.json" "$DST/meta.json" "$CLEAN" "$PATCHED" "$BASE" <<'P'
@@ -29,5 +31,5 @@ json.dump(m, open(sys.argv[2], 'w'), indent=1)
 P
   echo "KEPT $DST"
 else
-  echo "REJECTED $ID$V"
+  echo "REJECTED $NAME"
 fi
